@@ -2,6 +2,7 @@ import WhVerif.Util.Proto
 import WhVerif.Model.C04Json
 import WhVerif.Model.C09
 import WhVerif.Model.C09File
+import WhVerif.Spec.C09Cap
 namespace WhVerif.Driver.C09
 open Lean WhVerif.Proto WhVerif.C04 WhVerif.C04.Json WhVerif.C09
 
@@ -127,5 +128,15 @@ def handle (op : String) (j : Json) : Option Json :=
         some (ofList (fun g => Json.mkObj [("chrom", Json.str g.1), ("records", ofList ofRecord g.2)]) (writeFile gs))
       | none => some badInput
     | none => some badInput
+  else if op == "c09.fits" then
+    -- spans: [[lo, hi], ...] of the multi-variant sets of one sample on one chromosome; ps: their member positions
+    match getNat? j "cap", getNatList? j "ps", (getList? j "spans").bind (·.mapM fun x => do
+        match ← asArr? x with
+        | [a, b] => some (Cap.Span.mk (← asNat? a) (← asNat? b))
+        | _ => none) with
+    | some cap, some ps, some spans =>
+      some (ofList (fun i => Json.mkObj [("depth", ofNat (Cap.depth ps spans i)), ("fits", Json.bool (Cap.fits cap ps spans i))])
+              (List.range spans.length))
+    | _, _, _ => some badInput
   else none
 end WhVerif.Driver.C09
